@@ -910,6 +910,14 @@ pub fn churn_type(reg: &Registry, ty: usize, seed: u64, n: u64) -> ChurnOutcome 
                 let _ = guard(|| unsafe { (t.drop)(pb) });
             }
             out.constructions += 1;
+            // the long-lived instance keeps being used: a per-instance call counter, if any, runs up too
+            if i % 2 == 0 {
+                let one = perblock_on(t, pa, dir, &block[..t.block]).unwrap_or_default();
+                if one[..] != want_a[..t.block] {
+                    out.violation = Some(viol("churn", format!("{}: after {} constructions and {} calls on it, the long-lived instance of key A returns bytes that differ from what key A returned at the start", t.name, out.constructions, (step + i) / 2), &want_a[..t.block], &one, step + i));
+                    break 'outer;
+                }
+            }
             if i % 509 == 0 {
                 let live = perblock_on(t, pa, dir, &block).unwrap_or_default();
                 if live != want_a {
